@@ -44,8 +44,21 @@ Theorem C04_oracle_meaning : forall c,
   (forall f, In f (c_files c) -> file_ok f = true) /\
   NoDup (all_nonces c) /\
   (forall n, In n (all_nonces c) -> length n = 16%nat /\ exists b, In b n /\ b <> 0%N) /\
-  (forall h, In h (c_hits c) -> h = (true, true)).
+  (forall h, In h (c_hits c) -> h = (true, true)) /\
+  (forall expected collected distinct dups, In (expected, collected, distinct, dups) (c_conc c) ->
+     (expected <= collected)%N /\ collected = distinct /\ dups = []).
 Proof. exact check_C04_meaning. Qed.
+
+(* Concurrency. [run] accepts every interleaving of the goroutines' ops; the freshness theorems then need the
+   draws to be linearisable: with an atomic draw every schedule of any number of goroutines gives distinct
+   positions, while a generator whose read and advance steps can interleave does not. *)
+Theorem C04_atomic_draws_distinct : forall sched,
+  atomic_only sched = true -> NoDup (map snd (ggot (grun sched))).
+Proof. exact atomic_draws_distinct. Qed.
+
+Theorem C04_nonatomic_draws_refuted :
+  exists sched g1 g2 p, g1 <> g2 /\ In (g1, p) (ggot (grun sched)) /\ In (g2, p) (ggot (grun sched)).
+Proof. exact nonatomic_draws_refuted. Qed.
 
 Theorem C04_oracle_pack_meaning : forall L hlen entries hok hn same,
   file_ok (FPack L hlen entries hok hn same) = true ->
@@ -64,3 +77,5 @@ Print Assumptions C04_pack_ok_covers.
 Print Assumptions C04_oracle_meaning.
 Print Assumptions C04_oracle_pack_meaning.
 Print Assumptions C04_nodupb_spec.
+Print Assumptions C04_atomic_draws_distinct.
+Print Assumptions C04_nonatomic_draws_refuted.
